@@ -32,3 +32,7 @@ CHECKS['C19'] = ('model_checking',
     'codec: exhaustive enumeration of all strings up to length 4/5 over the 12 characters the encoding itself uses, in 5 payload positions, through pack/unpack and the run-length layer; queue: stateless exploration of the real PacketzQueue on real files — every interleaving of sends and receives by 1-2 readers with the file cut at every byte offset of the last record, full choice tree for small configurations and deviation-bounded for larger, invariant checked after every receive',
     'trusted: prefix-of-file model of a concurrent reader; ids distinct (clock seam); exceptions from a truncated read tolerated when nothing is lost or repeated',
     'stateless model checking of send/receive/truncation schedules + exhaustive input enumeration for the codec')
+CHECKS['C20'] = ('model_checking',
+    'exhaustive enumeration of complete sub-spaces: all 16384 styles (8x8 colours x 256 modifier subsets) x texts x specs; all texts up to length 3/4 over an 8-character class alphabet x 8 format specs x 7 styles; every route (str, format, f-string, .fmt, call, apply, len, repr round trip) with colour on and off; all 54 colour-policy combinations; explicit-state BFS over the chainable modifier methods (same state by different orders must render equally)',
+    'trusted: the SGR-stripping regex used as oracle; unicode represented by class representatives',
+    'exhaustive enumeration of bounded input/configuration spaces + explicit-state BFS with differential oracle')
